@@ -79,7 +79,9 @@ func c03Sweep(ctx *RunCtx, rep *Report, short bool, pr combination.PowerRankings
 					c := &Cfg{N: 2, Banks: []int64{100, 100}, SB: 5, BB: 10, Limit: "no", Hole: 2, Short: short}
 					o := c.Opts()
 					o.CombinationPowers = append(combination.PowerRankings{}, tbl...)
-					g := pokerface.NewPokerFace().NewGame(o)
+					// the package-level constructor: the states carry no game id, so nothing tells the object
+					// that the state loaded next belongs to another game
+					g := pokerface.NewGame(o)
 					g.Start()
 					return cloneGS(g.GetState())
 				}
